@@ -492,7 +492,7 @@ H("tp_read_one_0e_len1", ["C03", "C10"], "quick", "transport_parameters::read_on
   [("id", "u8", 14), ("len", "u8", 1), ("value", "[u8; 8]"), ("server", "bool")], 10,
   ["accepted", "rejected"], ["TransportParameters::read"],
   "parameter active_connection_id_limit alone with declared length 1: every 8 value bytes")
-H("assembler_ensure_ordering_empty", ["C01"], "quick", "connection::assembler::ensure_ordering_empty",
+H("assembler_ensure_ordering_empty", ["C01", "C06"], "quick", "connection::assembler::ensure_ordering_empty",
   [("bytes_read", "u64")], 4,
   ["something consumed", "nothing consumed"],
   ["Assembler::ensure_ordering", "RangeSet::insert", "RangeSet::peek_min"],
